@@ -32,7 +32,7 @@ CLAIMED = {
         note="shapes outside the enumerated family are outside the claim; CRC model as C01.",
         ref="DESIGN.md section 6, C03"),
     "C04": dict(
-        text="A reference encoder written from the standard's field tables builds MSM4/MSM7 frames from symbolic field values (every field over its full width, multiple-message flag symbolic); the real decoder must accept the frame and reproduce every header field, mask, satellite cell and signal cell, attached to the right satellite and signal id, for every cell mask of eight small shapes at three placements, 0..10 zero padding bytes (thorough 0..24), all 14 message types and wide shapes up to the 64-cell limit.",
+        text="A reference encoder written from the standard's field tables builds MSM4/MSM7 frames from symbolic field values (every field over its full width, multiple-message flag symbolic); the real decoder must accept the frame and reproduce every header field, mask, satellite cell and signal cell, attached to the right satellite and signal id, for every cell mask of eight small shapes at three placements, 0..10 zero padding bytes (thorough 0..24), all 14 message types and wide shapes up to the 64-cell limit; the mask expansion on its own for eight symbolic mask bits in a window at 3 (thorough: every) position of the satellite and of the signal mask.",
         note="mask SHAPES are enumerated (concrete) because the mask-expansion loops fork per bit; shapes outside the family are outside the claim; CRC model as C01.",
         ref="DESIGN.md section 6, C04"),
     "C05": dict(
@@ -40,7 +40,7 @@ CLAIMED = {
         note="for a %.4f rendering the solver shows the operand is float64(field)*0.0001 with |field| < 2^37 and the digit rendering by strconv is argued, not solved; an integer rendering (%d.%04d) is decided by the solver including the sign of values between -1 m and 0.",
         ref="DESIGN.md section 6, C05"),
     "C06": dict(
-        text="Every timestamp is packed into a CRC-valid MSM frame and sent through Handler.GetMessage; the true instant is defined from (week number, timestamp) with the property's reference arithmetic. For a start time symbolic to the nanosecond over nine days and histories of 2 (thorough 3) messages of any constellation and MSM4/MSM7 under the property's precondition, SentAt and StartOfWeek name exactly the true instant and week start; an illegal timestamp is reported as an error and later valid messages are still correct.",
+        text="Every timestamp is packed into a CRC-valid MSM frame and sent through Handler.GetMessage; the true instant is defined from (week number, timestamp) with the property's reference arithmetic. For a start time symbolic to the nanosecond over nine days and histories of 2 (thorough 3) messages of any constellation and MSM4/MSM7 under the property's precondition, SentAt and StartOfWeek name exactly the true instant and week start; an illegal timestamp is reported as an error and later valid messages are still correct; an inductive step from an arbitrary handler state satisfying the week-start/previous-timestamp invariant covers histories of any length and any number of rollovers, and shows the other constellations' state is untouched.",
         note="abstract instant model of time.Time (ite chains over day boundaries inside a solver-checked window); queries decided over the integers with explicit mod 2^64; histories longer than the bound are outside the claim.",
         ref="DESIGN.md section 6, C06",
         technique="bounded symbolic execution of the real Go code (go/ssa interpreter, encoding regenerated from /repo on every run) with an SMT solver (z3 5.1.0, linear integer arithmetic back end) deciding every branch and assertion; counterexamples replayed natively"),
@@ -94,7 +94,7 @@ CLAIMED = {
         note="found and natively confirmed the unescaped message list on the original tree (fixed by 8ec93f5); TCP/TLS/HTTP are outside the claim; that parsing cannot crash on any data is C07.",
         ref="DESIGN.md section 6, C19", technique=TECH2),
     "C18": dict(
-        text="Bounded histories (capacities 1..4, thorough 1..8; up to capacity+3 additions; symbolic messages; both map iteration orders) give exactly the last min(N,n) messages in order and never more than N; one addition from an arbitrary valid state with a symbolic next index keeps the invariant and shifts the contents by one (covers long runs far beyond the capacity); a lock-set monitor shows every access to the queue state inside Add/GetMessages holds the right lock and the lock is free on return.",
+        text="Bounded histories (capacities 1..4, thorough 1..8; up to capacity+3 additions; symbolic messages; both map iteration orders) give exactly the last min(N,n) messages in order and never more than N; one addition from an arbitrary valid state with a symbolic next index keeps the invariant and shifts the contents by one (covers long runs far beyond the capacity); a lock-set monitor shows every access to the queue state inside Add/GetMessages holds the right lock and the lock is free on return; one adder and one reader on a full queue under the lazy, round-robin and one-preemption (thorough: two) schedules: every snapshot is a contiguous run consistent with real time.",
         note="the concurrent clause is covered through the lock discipline (sequential consistency under the lock), confirmed natively by the race detector on a stress run; index values >= 2^62 are outside the claim.",
         ref="DESIGN.md section 6, C18"),
     "C14": dict(
